@@ -509,7 +509,10 @@ class Program:
             return cands[0][1]
         # several owners share the last segment (closures, trait methods): compare the whole normalised owner path
         want_n = self._norm_owner(owner)
-        exact = [fn for o, fn in cands if self._norm_owner(o) == want_n]
+        def same_owner(a, b):
+            # definitions are printed with a shortened path, uses with the full one
+            return a == b or a.endswith("::" + b) or b.endswith("::" + a)
+        exact = [fn for o, fn in cands if same_owner(want_n, self._norm_owner(o))]
         if len(exact) == 1:
             return exact[0]
         mi = re.search(r"<impl (?:.* for )?([^<>]+?)>", owner)
